@@ -28,6 +28,9 @@ def run(ctx):
     ok, log = ctx.extract("records", ["lean/KafkaVerif/Gen/RecordConsts.lean"])
     if not ok:
         broken.append({"kind": "obligation", "name": "translator go/extract records", "detail": log[-1500:]})
+    ok, log = ctx.extract("poolkeys", ["lean/KafkaVerif/Gen/CodecPools.lean"])
+    if not ok:
+        broken.append({"kind": "obligation", "name": "translator go/extract poolkeys", "detail": log[-1500:]})
     ok, log = ctx.extract("closeorder", ["lean/KafkaVerif/Gen/CodecClose.lean"])
     if not ok:
         broken.append({"kind": "obligation", "name": "translator go/extract closeorder", "detail": log[-1500:]})
